@@ -32,6 +32,13 @@
 // память для блобов выделяется страницами
 #define BLOB_PAGE_SIZE 1024
 
+#ifdef BEE2_VERIF
+/* verification hook: exact-size blobs, so that an overrun of less than a page
+   is visible to the simulated heap (see /verif/DESIGN.md, H-blob) */
+#undef BLOB_PAGE_SIZE
+#define BLOB_PAGE_SIZE 1
+#endif
+
 // требуется страниц
 #define blobPageCount(size)\
 	(((size) + sizeof(size_t) + BLOB_PAGE_SIZE - 1) / BLOB_PAGE_SIZE)
